@@ -32,7 +32,7 @@ For each change i in (1, 2) write into {wt}/seed_out/change{{i}}/ :
   - patch.diff  : `git diff` of ONLY that change against the worktree's HEAD (make the change, save the diff, then `git checkout -- .` before starting the next change);
   - demo.py     : a small self-contained program (run as: cd {wt} && PYTHONPATH={wt}/src /venv/bin/python seed_out/change{{i}}/demo.py) that exits 0 WITHOUT the patch and exits non-zero WITH the patch applied, printing what went wrong; it must exercise the public behaviour the property talks about (not poke at private details), and be deterministic;
   - meta.json   : {{"property": "{pid}", "summary": "...one sentence...", "files": [...], "needs_to_manifest": "...what specific input/schedule/sequence...", "tests_run": "...which test paths you ran with the patch and the pass/fail counts...", "why_tests_miss_it": "..."}}.
-Verify both directions of each demo yourself (without patch: exit 0; with patch: non-zero) and that the tests you ran pass with the patch applied. Leave the worktree clean (no uncommitted source changes) at the end; keep only seed_out/. Final message: a short summary of the two changes, what each needs to manifest, and the verification you did.'''
+Verify both directions of each demo yourself (without patch: exit 0; with patch: non-zero) and that the tests you ran pass with the patch applied. Leave the worktree clean (no uncommitted source changes) at the end; keep only seed_out/. Final message: a short summary of the two changes, what each needs to manifest, and the verification you did. If, while reading the code, you notice that the UNCHANGED code already breaks the property for some specific input or sequence, do not fix it and do not build on it, but describe it precisely (input, what happens, where in the code) at the end of your final message under the heading 'Defects at HEAD' - only things you have actually reproduced with a small script.'''
 
 
 def main():
